@@ -96,7 +96,7 @@ let () =
       let line = input_line stdin in
       if String.length line > 0 then begin
         Buffer.clear buf;
-        (try print buf (run (parse line)) with e -> Buffer.add_string buf ("!ERR " ^ Printexc.to_string e));
+        (try print buf (run_sx (parse line)) with e -> Buffer.add_string buf ("!ERR " ^ Printexc.to_string e));
         print_endline (Buffer.contents buf)
       end else print_endline ""
     done
